@@ -86,7 +86,8 @@ def build(root):
         "Out = m.new_space('Out'); Out.new_cells('o', formula='lambda: 1')",
         "AB = m.new_space('AB'); AB.new_cells('o', formula='lambda: 2')",
         "A = m.new_space('A', formula='lambda i: None'); A.new_cells('x', formula='lambda: 3')",
-        "T = A.new_space('T'); T.new_cells('tc', formula='lambda: 4')",
+        "T = A.new_space('T', formula='lambda j: None'); T.new_cells('tc', formula='lambda: 4')",
+        "PB = m.new_space('PB', formula='lambda i: {\"base\": A}', refs={'A': A})",   # ItemSpaces built from base A
     ]
     subs = [
         "Sub = m.new_space('Sub', bases=[m.A], formula='lambda i: None')",
@@ -237,9 +238,15 @@ def judge(m, root, case, viols, where="live"):
             sub_static = expected_static("A", "Sub", target, mode)
             if sub_static is not None:
                 see("Sub[1].t", expected_item("Sub", "Sub(1)", sub_static, mode), "item-of-sub:" + mode)
+        # ItemSpace of another space whose parameter formula selects A as its base
+        if safe(lambda: "PB" in m.spaces and "A" in m.spaces) is True:
+            see("PB[1].t", expected_item("A", "PB(1)", target, mode), "item-other-base:" + mode)
     else:   # definer A.T: deriver = child of an ItemSpace of A
         if safe(lambda: m.A.formula is not None) is True:
             see("A[1].T.t", expected_item("A", "A(1)", target, mode), "item-child:" + mode)
+            # nested ItemSpace: its base is A.T (the parent A[1].T is a different object)
+            if safe(lambda: m.A.T.formula is not None) is True:
+                see("A[1].T[2].t", expected_item("A.T", "A(1).T(2)", target, mode), "item-nested2:" + mode)
     return nchecked
 
 
@@ -400,7 +407,8 @@ def script(case):
          "Out = m.new_space('Out'); Out.new_cells('o', formula='lambda: 1')",
          "AB = m.new_space('AB'); AB.new_cells('o', formula='lambda: 2')",
          "A = m.new_space('A', formula='lambda i: None'); A.new_cells('x', formula='lambda: 3')",
-         "T = A.new_space('T'); T.new_cells('tc', formula='lambda: 4')"]
+         "T = A.new_space('T', formula='lambda j: None'); T.new_cells('tc', formula='lambda: 4')",
+         "PB = m.new_space('PB', formula='lambda i: {\"base\": A}', refs={'A': A})"]
     subs = ["Sub = m.new_space('Sub', bases=[m.A], formula='lambda i: None')",
             "SubSub = m.new_space('SubSub', bases=[m.Sub])", "Sub2 = m.new_space('Sub2', bases=[m.A])"]
     ref = setref(r["definer"], r["target"], r["mode"])["code"]
